@@ -250,6 +250,29 @@ def oracle(case: dict):
 KNOWN_PREDICATES = {}
 
 
+def spec_target_name(name, prefix, scope, output) -> str:
+    """documented derivation: same name, scope suffix, prefix applied once, extension chosen by the output format"""
+    from pathlib import PurePosixPath
+
+    pp = PurePosixPath(name)
+    stem, suffix = pp.stem, pp.suffix
+    if stem in ("parsed", prefix):
+        base, ending = stem + suffix, ""
+    else:
+        base, ending = stem, suffix
+    if scope:
+        base += "_" + "_".join(str(k) for k in scope)
+    if prefix:
+        pre = prefix[:-1] if prefix.endswith(".") else prefix
+        if base.startswith(pre + "."):
+            base = base[len(pre) + 1:]
+        base = pre + "." + base
+    if output:
+        o = output if output in ("cpp", "foam", "json", "xml") else "cpp"
+        ending = "" if o == "cpp" else "." + o
+    return base + ending
+
+
 def name_cases(rng, n):
     out = []
     stems = ["foo", "parsed", "parsed.foo", "a.b", ".hidden", "x.", "my dict", "parsed.parsed.x", "foo.json", "p", "parsedX", "parsed_foo.cpp"]
@@ -302,6 +325,9 @@ def run(ctx):
             il = wire.enc_str(r.name)
             if r.parent != Path("/some/dir"):
                 ctx.oracle_fail(c, "name-dir", f"create_target_file_name left the source directory: {r}")
+            exp_name = spec_target_name(name, prefix, scope, output)
+            if r.name != exp_name:
+                ctx.oracle_fail(c, "name-wrong", f"create_target_file_name({name!r}, prefix={prefix!r}, scope={scope!r}, output={output!r}) = {r.name!r}, expected {exp_name!r}")
             r2 = dictIO.create_target_file_name(r, prefix=prefix, scope=None, output=None)
             if prefix == "parsed" and not scope and r2 != r and not output:
                 ctx.oracle_fail(c, "name-prefix-twice", f"prefix applied twice: {r.name} -> {r2.name}")
